@@ -1,7 +1,147 @@
-(* C14 - MICE; placeholder until the proofs land. *)
-From WP Require Import Base.Prelude Model.Mice.
+(* C14 - MICE (drafts 02 and 03): Encode computes the digest and stream layout
+   of the draft's recursive definition (Spec/Mice.v), and decoding that stream
+   with the returned digest header yields the payload.
+
+   H is the hash (SHA-256 in the code).  The only facts about it that are
+   used are premises of the theorems: its output has 32 bytes, each < 256. *)
+From WP Require Import Base.Prelude Base.Base64 Base.Sha256 Model.Mice Spec.Mice.
+From WP Require Import Proofs.MiceLemmas Proofs.MiceEncode Proofs.MiceDecode.
 Open Scope N_scope.
 
-Theorem c14_smoke : content_encoding D03 = s2b "mi-sha256-03".
-Proof. reflexivity. Qed.
-Print Assumptions c14_smoke.
+(* Encode = specification, for every payload (no size bound), every record
+   size >= 1, both drafts; in particular no slice panics and the loop fuel
+   suffices.  No assumption on H at all. *)
+Theorem C14_encode_refines_spec :
+  forall (H : bytes -> bytes) (d : draft) (rs : N) (p : bytes),
+    1 <= rs ->
+    encode H d rs p = Ok (stream H d rs p, digest_header H d rs p).
+Proof. exact encode_refines_spec. Qed.
+Print Assumptions C14_encode_refines_spec.
+
+(* all four base64 alphabets/paddings decode what they encode *)
+Theorem C14_b64_roundtrip :
+  forall (pad url : bool) (bs : bytes),
+    wfb bs -> b64_decode pad url (b64_encode pad url bs) = Some bs.
+Proof. exact b64_roundtrip. Qed.
+Print Assumptions C14_b64_roundtrip.
+
+(* NewDecoder accepts the specified stream + digest header, and then:
+   (1) any history of Read calls (any destination sizes, 0 included) never
+       errs, delivers a prefix of p, and reports EOF only after all of p;
+   (2) more than |p| reads into non-empty buffers deliver p and end with EOF;
+   (3) the ReadAll loop with any buffer size k >= 1 returns (p, EOF). *)
+Theorem C14_mi_roundtrip :
+  forall (H : bytes -> bytes),
+    (forall x, List.length (H x) = 32%nat) -> (forall x, wfb (H x)) ->
+  forall (d : draft) (rs maxrs : N) (p : bytes),
+    1 <= rs -> rs <= maxrs -> rs < two64 ->
+    exists s0,
+      new_decoder H d (stream H d rs p) (digest_header H d rs p) maxrs = Ok s0 /\
+      (forall sizes out st, read_trace H s0 sizes [] = (out, st) ->
+         st <> RErr /\ (exists rest, p = out ++ rest) /\ (st = REOF -> out = p)) /\
+      (forall sizes out st, Forall (fun k => 1 <= k) sizes ->
+         (List.length p < List.length sizes)%nat ->
+         read_trace H s0 sizes [] = (out, st) -> out = p /\ st = REOF) /\
+      (forall k fuel, 1 <= k -> (List.length p < fuel)%nat ->
+         read_all H fuel s0 k [] = (p, REOF)).
+Proof. exact mi_roundtrip. Qed.
+Print Assumptions C14_mi_roundtrip.
+
+Theorem C14_decode_all_roundtrip :
+  forall (H : bytes -> bytes),
+    (forall x, List.length (H x) = 32%nat) -> (forall x, wfb (H x)) ->
+  forall (d : draft) (rs maxrs k : N) (p : bytes),
+    1 <= rs -> rs <= maxrs -> rs < two64 -> 1 <= k ->
+    decode_all H d (stream H d rs p) (digest_header H d rs p) maxrs k = Ok (p, REOF).
+Proof. exact decode_all_roundtrip. Qed.
+Print Assumptions C14_decode_all_roundtrip.
+
+(* the same on the model functions only: Encode, then NewDecoder + ReadAll *)
+Theorem C14_encode_decode_roundtrip :
+  forall (H : bytes -> bytes),
+    (forall x, List.length (H x) = 32%nat) -> (forall x, wfb (H x)) ->
+  forall (d : draft) (rs maxrs k : N) (p : bytes),
+    1 <= rs -> rs <= maxrs -> rs < two64 -> 1 <= k ->
+    exists strm hdr, encode H d rs p = Ok (strm, hdr) /\
+                     decode_all H d strm hdr maxrs k = Ok (p, REOF).
+Proof. exact encode_decode_roundtrip. Qed.
+Print Assumptions C14_encode_decode_roundtrip.
+
+(* ---- the premises are satisfiable: a toy 32-byte hash -------------------- *)
+Definition toyH (x : bytes) : bytes :=
+  be 32 (fold_left (fun a b => (a * 257 + b + 1) mod 2 ^ 256) x 7).
+
+Example toyH_len : forall x, List.length (toyH x) = 32%nat.
+Proof. intros x. apply be_length. Qed.
+Example toyH_wf : forall x, wfb (toyH x).
+Proof. intros x. apply be_wfb. Qed.
+
+Example toy_roundtrip_all :
+  forall d rs k p, 1 <= rs -> rs <= 16384 -> 1 <= k ->
+    exists strm hdr, encode toyH d rs p = Ok (strm, hdr) /\
+                     decode_all toyH d strm hdr 16384 k = Ok (p, REOF).
+Proof.
+  intros d rs k p R1 R2 K.
+  apply (C14_encode_decode_roundtrip toyH toyH_len toyH_wf); try assumption.
+  apply (N.le_lt_trans _ 16384); [exact R2|reflexivity].
+Qed.
+
+(* ---- concrete runs with SHA-256 ------------------------------------------ *)
+Definition msg : bytes := s2b "When I grow up, I want to be a watermelon".
+
+(* the published examples of the draft (also in mice_test.go) *)
+Example spec_vector_single_03 :
+  digest_header sha256 D03 41 msg
+  = s2b "mi-sha256-03=dcRDgR2GM35DluAV13PzgnG6+pvQwPywfFvAu1UeFrs=".
+Proof. vm_compute. reflexivity. Qed.
+Example spec_vector_multi_03 :
+  digest_header sha256 D03 16 msg
+  = s2b "mi-sha256-03=IVa9shfs0nyKEhHqtB3WVNANJ2Njm5KjQLjRtnbkYJ4=".
+Proof. vm_compute. reflexivity. Qed.
+Example spec_vector_multi_02 :
+  digest_header sha256 D02 16 msg
+  = s2b "mi-sha256-draft2=IVa9shfs0nyKEhHqtB3WVNANJ2Njm5KjQLjRtnbkYJ4".
+Proof. vm_compute. reflexivity. Qed.
+Example spec_vector_empty_03 :
+  stream sha256 D03 16 [] = [] /\
+  digest_header sha256 D03 16 []
+  = s2b "mi-sha256-03=bjQLnP+zepicpUTmu3gKLHiQHT+zNzh2hRGjBhevoB0=".
+Proof. vm_compute. split; reflexivity. Qed.
+Example spec_vector_empty_02 :
+  stream sha256 D02 16 [] = be 8 16 /\
+  digest_header sha256 D02 16 []
+  = s2b "mi-sha256-draft2=bjQLnP-zepicpUTmu3gKLHiQHT-zNzh2hRGjBhevoB0".
+Proof. vm_compute. split; reflexivity. Qed.
+
+(* stream layout: 8-byte size, 3 records, 2 interleaved proofs *)
+Example stream_layout :
+  List.length (stream sha256 D03 16 msg) = (8 + 41 + 2 * 32)%nat /\
+  firstn 24 (stream sha256 D03 16 msg) = be 8 16 ++ firstn 16 msg.
+Proof. vm_compute. split; reflexivity. Qed.
+
+Example real_roundtrip_03 :
+  match encode sha256 D03 16 msg with
+  | Ok (strm, hdr) => decode_all sha256 D03 strm hdr 16384 7 = Ok (msg, REOF)
+  | _ => False
+  end.
+Proof. vm_compute. reflexivity. Qed.
+Example real_roundtrip_02_exact_multiple :
+  match encode sha256 D02 8 (firstn 32 msg) with
+  | Ok (strm, hdr) => decode_all sha256 D02 strm hdr 16384 5 = Ok (firstn 32 msg, REOF)
+  | _ => False
+  end.
+Proof. vm_compute. reflexivity. Qed.
+
+(* the preconditions are needed *)
+(* k = 0: ReadAll with an empty buffer makes no progress (Go: Read returns 0, nil) *)
+Example zero_buffer_makes_no_progress :
+  decode_all sha256 D03 (stream sha256 D03 16 msg) (digest_header sha256 D03 16 msg) 16384 0
+  = Ok ([], ROk).
+Proof. vm_compute. reflexivity. Qed.
+(* rs >= 2^64 does not fit the 8-byte size field (unreachable from Go: int) *)
+Example record_size_must_fit_8_bytes :
+  let rs := two64 + 1 in
+  encode toyH D03 rs [1; 2] = Ok (stream toyH D03 rs [1; 2], digest_header toyH D03 rs [1; 2]) /\
+  decode_all toyH D03 (stream toyH D03 rs [1; 2]) (digest_header toyH D03 rs [1; 2]) rs 4
+  = Ok ([], RErr).
+Proof. vm_compute. split; reflexivity. Qed.
